@@ -150,8 +150,8 @@ def materialise(subject, cfg, pname, seed, dtype=torch.float64, train=False):
     pat = pattern_for(pname, seed)
     fill(m, pat)
     subject.post(m, cfg, pat)
-    if pat[0] == "pat" and subject.kind in ("coupling-spline", "ar-spline", "coupling", "ar"):
-        cap_conditioner(subject, cfg, m)
+    if pat[0] in ("pat", "init") and subject.kind in ("coupling-spline", "ar-spline", "coupling", "ar"):
+        cap_conditioner(subject, cfg, m)  # (a no-op unless some conditioner output exceeds the cap on the probe inputs)
     if dtype == torch.float64:
         m = m.double()
     m.train(train)
